@@ -177,13 +177,16 @@ pub fn c14_lists(s: &Setting, th: bool) -> Vec<Vec<Param>> {
         let base: Vec<Param> = (0..l).map(|i| p(s.ws[i].max(4), 2.min(s.heights[i]))).collect();
         for i in 0..l {
             if let Some(h) = next_height(s.heights[i]) {
-                // (heights above 10 are only probed through the lifetime query, see c14_tasks)
-                let mut x = base.clone();
-                x[i] = p(s.ws[i].max(4), h);
-                lists.push(x);
+                // heights above 10 are only probed through the lifetime query (see c14_tasks) and only as
+                // single-level lists: with two or more levels even the lifetime query generates the trees
+                if h <= 10 || l == 1 {
+                    let mut x = base.clone();
+                    x[i] = p(s.ws[i].max(4), h);
+                    lists.push(x);
+                }
             }
             // the per-level maximum itself where it is too tall to generate: must be accepted
-            if s.heights[i] > 10 {
+            if s.heights[i] > 10 && l == 1 {
                 let mut x = base.clone();
                 x[i] = p(s.ws[i].max(4), s.heights[i]);
                 lists.push(x);
@@ -208,9 +211,11 @@ pub fn c14_lists(s: &Setting, th: bool) -> Vec<Vec<Param>> {
                 lists.push(x);
             }
             if let Some(h) = next_height(s.heights[i]) {
-                let mut x = maxed.clone();
-                x[i] = p(s.ws[i], h);
-                lists.push(x);
+                if h <= 10 {
+                    let mut x = maxed.clone();
+                    x[i] = p(s.ws[i], h);
+                    lists.push(x);
+                }
             }
         }
     }
@@ -561,7 +566,7 @@ pub fn run_c14(ctx: &Ctx) -> (&'static str, Map<String, Value>) {
     }
     ctx.count("fast_verify-restricted-build-tasks", fv_tasks_total);
     ctx.assume("'inside the limits' is read per level as documented (level i: height <= HBS_LMS_TREE_HEIGHTS[i], W >= HBS_LMS_WINTERNITZ_PARAMETERS[i]); lists inside the global extrema but outside a per-level entry may be refused or work correctly; lists outside every reading must be refused");
-    ctx.assume("tree heights > 10 are never generated: parameter lists containing such a height (the per-level maximum itself, or one height above it) are exercised through the lifetime query on crafted key bytes only");
+    ctx.assume("tree heights > 10 are never generated: parameter lists containing such a height (the per-level maximum itself, or one height above it) are exercised through the lifetime query on crafted key bytes only, and only as single-level lists (with two or more levels the lifetime query itself generates the trees)");
     let mut m = Map::new();
     m.insert("evaluations".into(), json!(evals));
     m.insert("distinct_nontrivial".into(), json!(evals));
